@@ -403,6 +403,11 @@ func propC03(c *Ctx, r *Report) {
 		acc.report(c, r, "C03-R9/peg-request-complete", hold)
 		r.check(len(bad) == 0, "C03-R9/peg-request-complete", "ApplyTransactionBatchesInHolding, batches with a PEG request", c.pos(hold.Pos()), fmt.Sprintf("%d height classes", n), strings.Join(bad, "; ")+": only the debit half of the conversion is applied")
 	}
+	// a rejected batch leaves every balance as it was: it is not handed to the PEG settlement (shared with C16)
+	ruleRejectedNotCollected(c, r, newEraCtx(c, r), "C03-R11/rejected-not-collected")
+	// applied completely: no statement error inside recordBatch is lost (same engine as C10)
+	r.rule("C03-R10/record-errors", 5, "every error while recording a batch reaches the caller")
+	runErrflow(c, computeEffects(c), r, map[*ssa.Function]bool{c.fn("node.Pegnetd.recordBatch"): true}, "C03-R10/record-errors", false)
 	// applied completely: every transfer output of an executed batch is credited (shared with C04-R3)
 	r.rule("C03-R8/outputs-credited", 1, "only the burn address is exempt from being credited")
 	rb := c.fn("node.Pegnetd.recordBatch")
